@@ -53,6 +53,40 @@ def _origin_calls(fn, flow, operand, fields=()):
     return outs
 
 
+def _closures_of(fx, key):
+    return [k for k, g in fx.fns.items() if (g.get("parent") or "") == key or (g.get("parent") or "").startswith(key + "::{") if "{promoted" not in k]
+
+
+def _closure_captures(fx, pfn, ckey):
+    """operands captured where the parent function creates the closure `ckey` (None when the creation site is not found)"""
+    path = fx.fns[ckey]["path"]
+    for bi, si, s in pfn.stmts():
+        if s["rv"]["k"] == "agg" and s["rv"].get("closure") == path:
+            return s["rv"]["ops"]
+    return None
+
+
+def _origin_calls_in(fx, fkey, fn, flow, operand, fields=(), pfn=None, pflow=None):
+    """_origin_calls, where a value captured by a closure is traced to what the enclosing function captured"""
+    outs = set()
+    for s_ in _origin_calls(fn, flow, operand, fields):
+        outs.add(s_)
+    if pfn is not None and "<arg1>" in outs:
+        caps = _closure_captures(fx, pfn, fkey)
+        r = op_root(operand)
+        if caps is not None and r is not None:
+            outs.discard("<arg1>")
+            for o in flow.origins(r, tuple(place_fields(operand["pl"])) + tuple(fields)):
+                if o[0] == "arg" and o[1] == 1:
+                    idx = [int(x) for x in o[2][:1] if str(x).isdigit()]
+                    if idx and idx[0] < len(caps) and caps[idx[0]].get("k") in ("copy", "move"):
+                        outs |= _origin_calls(pfn, pflow, caps[idx[0]], tuple(o[2][1:]))
+                        outs |= _origin_calls(pfn, pflow, caps[idx[0]])
+                    else:
+                        outs.add("<capture>")
+    return outs
+
+
 def _ok_payload_origins(fn, flow):
     """origins (callee keys) of the payload of every `Ok(..)` stored to the return place"""
     outs = set()
@@ -72,7 +106,24 @@ def rule_wire_chain(ctx):
     for stage, inp, trans, mode in CHAIN:
         f = fx.fn(D + stage)
         fx.fn(trans)
-        fn = Fn(f)
+        outer = Fn(f)
+        fn = outer
+        # the stage may compute its value in a closure it hands to a caching helper: the body that calls the transformation
+        for ck in _closures_of(fx, D + stage):
+            if not _calls_to(fn, trans) and _calls_to(Fn(fx.fns[ck]), trans):
+                fn = Fn(fx.fns[ck])
+                # the closure must be what the stage's result is computed by: it is handed to a call whose result is returned
+                oflow = Flow(outer, extra_pass=_try_pass)
+                handed = False
+                for bi, t in outer.calls():
+                    for a in t["args"]:
+                        r_ = op_root(a)
+                        if (a.get("k") == "const" and a.get("closure") == fx.fns[ck]["path"]) or \
+                                (r_ is not None and any(o[0] == "agg" and oflow.agg_at(o).get("closure") == fx.fns[ck]["path"] for o in oflow.origins(r_, ()))):
+                            if ("call", bi, ()) in oflow.origins(0, ()) or any(o[0] == "call" and o[1] == bi for o in oflow.origins(0, ())):
+                                handed = True
+                if not handed:
+                    fn = outer
         flow = Flow(fn, extra_pass=_try_pass)
         key = "chain:%s" % stage
         tcalls = _calls_to(fn, trans)
@@ -101,7 +152,11 @@ def rule_wire_chain(ctx):
         cache = "std::collections::hash::map::HashMap::get"
         ret_origins, nok = _ok_payload_origins(fn, flow)
         if nok == 0:
-            raise AnalysisError("anchor lost: %s builds no Ok(..) result" % (D + stage))
+            # no Ok(..) of its own: the Result of a call is returned as it is (`parse_module(..).map_err(..)`)
+            # (the error of the previous stage, propagated with `?`, reaches the return place as well)
+            ret_origins = {o_ for o_ in _origin_calls(fn, flow, {"k": "copy", "pl": {"l": 0, "p": []}}) if not o_.startswith("<") and (o_ != inp or mode != "value")}
+            if not ret_origins:
+                raise AnalysisError("anchor lost: %s builds no Ok(..) result and returns no call result" % (D + stage))
         ret_origins = {r for r in ret_origins if not r.startswith("std::collections::hash::map") and r != "<undef>"}
         if want not in ret_origins or any(r != want for r in ret_origins):
             res.violate(key + "@result", "stage `%s` returns a value originating from %s, expected only the result of %s" %
@@ -139,12 +194,16 @@ def rule_wire_chain(ctx):
             if D + "linearized" not in src or any(not s.startswith("<") and s != D + "linearized" for s in src):
                 res.violate(key + "@provenance", "%s compiles a program that does not come from Driver::linearized but from %s" % (pf, sorted(src)), t["sp"]["file"], t["sp"]["line"])
                 ok = False
-        rts = _calls_to(fn, routine)
+        rts = [(fn, flow, None, bi, t) for bi, t in _calls_to(fn, routine)]
+        for ck in _closures_of(fx, D + pf):
+            cfn = Fn(fx.fns[ck])
+            cflow = Flow(cfn, extra_pass=_try_pass)
+            rts += [(cfn, cflow, ck, bi, t) for bi, t in _calls_to(cfn, routine)]
         if not rts:
             res.violate(key + "@routine", "%s never calls %s (no prologue/epilogue around the code)" % (pf, routine), fn.file, fn.line)
             ok = False
-        for bi, t in rts:
-            src = _origin_calls(fn, flow, t["args"][0])
+        for rfn, rflow, rck, bi, t in rts:
+            src = _origin_calls(rfn, rflow, t["args"][0]) if rck is None else _origin_calls_in(fx, rck, rfn, rflow, t["args"][0], (), fn, flow)
             if "axcut2backend::coder::compile" not in src or any(not s.startswith("<") and s != "axcut2backend::coder::compile" for s in src):
                 res.violate(key + "@routine-arg", "%s: into_routine argument comes from %s, expected the result of coder::compile" % (pf, sorted(src)), t["sp"]["file"], t["sp"]["line"])
                 ok = False
@@ -171,13 +230,31 @@ def rule_wire_chain(ctx):
         flow = Flow(fn, extra_pass=_try_pass)
         key = "link:%s" % cf
         ok = True
-        gcd = _calls_to(fn, "driver::generate_c_driver")
+        gcd = [(fn, flow, None, bi, t) for bi, t in _calls_to(fn, "driver::generate_c_driver")]
         gio = _calls_to(fn, "driver::generate_io_runtime")
+        for bi, ht in fn.calls():
+            hk = ht.get("resolved_key") or (ht.get("callee_key") if not ht.get("callee_trait") else None)
+            if hk in fx.fns and fx.fns[hk]["crate"] == "driver" and hk not in (D + pf, "driver::generate_c_driver", "driver::generate_io_runtime"):
+                hfn = Fn(fx.fns[hk])
+                hflow = Flow(hfn, extra_pass=_try_pass)
+                gcd += [(hfn, hflow, ht, b2, t2) for b2, t2 in _calls_to(hfn, "driver::generate_c_driver")]
+                gio = gio + _calls_to(hfn, "driver::generate_io_runtime")
         if not gcd or not gio or not _calls_to(fn, D + pf):
             res.violate(key + "@must-call", "%s must call %s, generate_c_driver and generate_io_runtime" % (cf, pf), fn.file, fn.line)
             ok = False
-        for bi, t in gcd:
-            src = _origin_calls(fn, flow, t["args"][0], ("0",)) | _origin_calls(fn, flow, t["args"][0])
+        for gfn, gflow, via, bi, t in gcd:
+            src = _origin_calls(gfn, gflow, t["args"][0], ("0",)) | _origin_calls(gfn, gflow, t["args"][0])
+            if via is not None:
+                # inside a helper: its parameter stands for the argument at the call of the helper
+                mapped = set()
+                for s_ in src:
+                    m_ = s_[4:-1] if s_.startswith("<arg") else None
+                    if m_ and m_.isdigit() and int(m_) - 1 < len(via["args"]):
+                        a_ = via["args"][int(m_) - 1]
+                        mapped |= _origin_calls(fn, flow, a_, ("0",)) | _origin_calls(fn, flow, a_)
+                    else:
+                        mapped.add(s_)
+                src = mapped
             src.discard("<undef>")
             if src != {D + pf}:
                 res.violate(key + "@argcount", "%s passes generate_c_driver an argument count from %s, expected the result of %s" % (cf, sorted(src), pf), t["sp"]["file"], t["sp"]["line"])
